@@ -32,6 +32,13 @@ static Verdict c06_checks(const Bytes &P, const Bytes &S, const Bytes &H, const 
     // histogram of the last digest character (value-dependent encoding paths)
     ctx.st.cls(std::string("c06-lastchar/") + METHOD_NAME[m] + "/" + std::string(1, H.back()));
   }
+  {
+    // the result must be a NUL-terminated string of that shape whatever the output field held before the call
+    HashRes hd = hash_rn_dirty(P, S);
+    ctx.st.executed++;
+    if (!hd.ok || hd.out != H)
+      return "C06 over an output field that held other data the result is " + (hd.ok ? "\"" + vis(hd.out, 120) + "\" (length " + std::to_string(hd.out.size()) + ")" : std::string("a failure")) + " instead of the " + std::to_string(H.size()) + "-character string " + vis(H, 120);
+  }
   if (reaccept) {
     HashRes h2 = hash_rn(P, H);
     ctx.st.executed++;
